@@ -12,6 +12,7 @@
 #include <sys/prctl.h>
 #include <sys/stat.h>
 #include <sys/time.h>
+#include <sys/mman.h>
 #include <sys/wait.h>
 #include <time.h>
 #include <unistd.h>
@@ -266,6 +267,10 @@ static void account(WorkerStats& st, std::unordered_set<uint64_t>& seen, const R
 
 static int g_chunk = 40;
 
+// set by the first worker that sees a violation: the others finish their chunk and stop
+static int* g_stop_flag = nullptr;
+static bool stop_requested() { return g_stop_flag && __atomic_load_n(g_stop_flag, __ATOMIC_RELAXED) != 0; }
+
 static void worker_loop(int w, int jobs, double t_end, int out_fd) {
   cpu_set_t cs;
   CPU_ZERO(&cs);
@@ -280,6 +285,7 @@ static void worker_loop(int w, int jobs, double t_end, int out_fd) {
     if (O.max_runs && lo >= O.max_runs) break;
     if (O.max_runs && hi > O.max_runs) hi = O.max_runs;
     if (!O.max_runs && wall_now() >= t_end) break;
+    if (stop_requested()) break;
     std::vector<RunSpec> specs;
     for (uint64_t i = lo; i < hi; i++) {
       RunSpec s = spec_for_index(O.first_index + i);
@@ -293,6 +299,8 @@ static void worker_loop(int w, int jobs, double t_end, int out_fd) {
       for (size_t j = 0; j < rs.size(); j++) account(st, seen, specs[pos + j], rs[j], O.first_index + lo + pos + j, O.first_index + lo + pos);
       pos += rs.size();
       if (st.viol >= 1 || st.infra >= 3) stop = true;
+      if (st.viol >= 1 && g_stop_flag) __atomic_store_n(g_stop_flag, 1, __ATOMIC_RELAXED);
+      if (stop_requested()) stop = true;
       if (!O.max_runs && wall_now() >= t_end) stop = true;
     }
     for (auto& s : specs) free((void*)s.gp.property);
@@ -704,6 +712,8 @@ static int run_batch() {
   int jobs = O.jobs;
   std::vector<pid_t> pids;
   std::vector<int> fds;
+  g_stop_flag = (int*)mmap(nullptr, 4096, PROT_READ | PROT_WRITE, MAP_SHARED | MAP_ANONYMOUS, -1, 0);
+  if (g_stop_flag == MAP_FAILED) g_stop_flag = nullptr;
   for (int w = 0; w < jobs; w++) {
     int pfd[2];
     if (pipe(pfd) != 0) return 2;
